@@ -67,6 +67,18 @@ fn main() {
         }
     }
     writeln!(corpus, "v }}").unwrap();
+    // construct a single parser by name (Miri mode: building all lexer DFAs would take minutes)
+    writeln!(corpus, "pub fn make(name: &str) -> Option<Box<dyn crate::sut::Sut>> {{ match name {{").unwrap();
+    for var in variants.iter() {
+        if rejected.contains(&var.module) {
+            continue;
+        }
+        let spec = &specs[var.spec];
+        for nt in spec.nts.iter().filter(|n| n.public) {
+            writeln!(corpus, "{:?} => Some(Box::new(A_{}_{}({}::{}Parser::new()))),", format!("{}::{}", var.module, nt.name), var.module, nt.name, var.module, nt.name).unwrap();
+        }
+    }
+    writeln!(corpus, "_ => None }} }}").unwrap();
     writeln!(corpus, "pub const REJECTED: &[&str] = &{:?};", rejected).unwrap();
     writeln!(corpus, "pub const ACCEPTED: usize = {accepted};").unwrap();
     std::fs::write(out.join("corpus.rs"), corpus).unwrap();
